@@ -49,41 +49,51 @@ pub async fn read_to_end_or_max(
                 .capacity()
                 .clamp(lower, (buffer.capacity() * 2 / 3).max(lower));
             buffer.reserve((buffer.capacity() - buffer.len()) + additional);
-            // This is safe because of the trailing unsafe block.
+            // This is safe because of `Restore`.
             unsafe { buffer.set_len(buffer.capacity()) };
         }
     }
 
-    let mut read = buffer.len();
+    /// While we read, the length of `buffer` is its capacity.
+    /// This sets it to the count of bytes read on every way out,
+    /// including the future being dropped while it waits for `reader` (e.g. by a timeout).
+    struct Restore<'a> {
+        buffer: &'a mut BytesMut,
+        read: usize,
+    }
+    impl Drop for Restore<'_> {
+        fn drop(&mut self) {
+            // I have counted the length in `read`. It will *not* include uninitiated bytes.
+            unsafe { self.buffer.set_len(self.read) };
+        }
+    }
 
-    if read >= max_len {
+    if buffer.len() >= max_len {
         return Ok(());
     }
 
-    // This is safe because of the trailing unsafe block.
-    unsafe { buffer.set_len(buffer.capacity()) };
-    if buffer.capacity() == buffer.len() {
-        reserve(read, buffer);
+    let mut guard = Restore {
+        read: buffer.len(),
+        buffer,
+    };
+
+    // This is safe because of `Restore`.
+    unsafe { guard.buffer.set_len(guard.buffer.capacity()) };
+    if guard.buffer.capacity() == guard.buffer.len() {
+        reserve(guard.read, guard.buffer);
     }
     loop {
-        match reader.read(&mut buffer[read..]).await.map_err(|err| {
-            // if err, set buffer len to safe value
-            unsafe { buffer.set_len(read) };
-            err
-        })? {
+        match reader.read(&mut guard.buffer[guard.read..]).await? {
             0 => break,
             len => {
-                read += len;
-                if read >= max_len {
-                    unsafe { buffer.set_len(read) };
+                guard.read += len;
+                if guard.read >= max_len {
                     return Ok(());
                 }
-                reserve(read, buffer);
+                reserve(guard.read, guard.buffer);
             }
         }
     }
-    // I have counted the length in `read`. It will *not* include uninitiated bytes.
-    unsafe { buffer.set_len(read) };
     Ok(())
 }
 
